@@ -254,6 +254,58 @@ def history(ctx, ag):
     return n
 
 
+def reload_leg(ctx, ag):
+    """The store the frontends answer from is the one the agent serves now: the configuration is changed (another base
+    directory in which alice has another password, bob does not exist and zoe is new; then another default set and a
+    password change through the CLI), the agent is told to reload (SIGHUP), and every transport must give the verdict of the
+    library on the configuration on disk."""
+    import shutil, signal
+    n = 0
+    fns = {"sasl": ag.sasl, "basic": ag.basic, "json": ag.jsonapi, "ldap": ag.ldapbind}
+    base2 = os.path.join(ag.root, "base2")
+    os.makedirs(base2, mode=0o700, exist_ok=True)
+    new_alice, zoe = b"alice's password in the second directory", b"zoe is new here"
+    open(os.path.join(base2, "alice.admin"), "wb").write(fsfam.scrypt_record(new_alice).encode())
+    open(os.path.join(base2, "zoe.user"), "wb").write(fsfam.scrypt_record(zoe).encode())
+    old_cfg = open(ag.cfg).read()
+    probes = [(b"alice", RIGHT["alice"]), (b"alice", new_alice), (b"bob", RIGHT["bob"]), (b"zoe", zoe), (b"zoe@somewhere", zoe)]
+    def settle(user, pw, want):
+        for _ in range(100):             # the reload happens between two requests of the dispatcher
+            if ag.sasl(user, pw) is want:
+                return True
+            time.sleep(0.05)
+        return False
+    try:
+        for stage in ("other-basedir", "back"):
+            open(ag.cfg, "w").write(old_cfg.replace(ag.base, base2) if stage == "other-basedir" else old_cfg)
+            ag.proc.send_signal(signal.SIGHUP)
+            marker = (b"zoe", zoe, True) if stage == "other-basedir" else (b"bob", RIGHT["bob"], True)
+            if not settle(*marker):
+                ctx.violation("C04", "reload:%s:frontends-answer-from-the-previous-store:sasl" % stage,
+                              "5 s after SIGHUP the saslauthd listener still denies %r, which the store configured now accepts" % marker[0])
+            for i, (user, pw) in enumerate(probes):
+                name_for = lambda t: user.split(b"@", 1)[0] if t == "ldap" else user
+                for t, fn in fns.items():
+                    want = ag.library(name_for(t), pw, "rl-%s-%d-%s" % (stage, i, t))
+                    try:
+                        got = fn(user, pw)
+                    except Exception as ex:
+                        ctx.violation("C04", "transport-error:reload:" + t, repr(ex))
+                        continue
+                    if got is None:
+                        continue
+                    n += 1
+                    if got != want:
+                        ctx.violation("C04", "reload:%s:%s:%s" % (stage, t, "accepted-although-store-denies" if got else "denied-although-store-accepts"),
+                                      "after the reload (%s) user %r password %r..: the frontend says %s, store.Authenticate on the configuration on disk says %s" % (
+                                          stage, user, pw[:16], got, want))
+    finally:
+        open(ag.cfg, "w").write(old_cfg)
+        ag.proc.send_signal(signal.SIGHUP)
+        time.sleep(0.3)
+    return n
+
+
 def upgrade_pressure(ctx):
     """Local upgrades switched on, every record upgradeable (default set 2, records of set 1) and every upgrade refused by a
     password policy the stored passwords do not meet: the internal upgrade queue stays full under a burst of right-password
@@ -341,6 +393,7 @@ def run(ctx):
         nburst = burst(ctx, ag)
         nhist = history(ctx, ag)
         nmiss = missing_members(ctx, ag)
+        nreload = reload_leg(ctx, ag)
     finally:
         ag.stop()
     nup = upgrade_pressure(ctx)
@@ -366,7 +419,7 @@ def run(ctx):
     nlisten = listenfam.replay(ctx, "C04")
     cov = ctx.coverage
     cov.update({"states": res["distinct"] + cov.get("states", 0), "transitions": res["generated"], "traces_validated_against_impl": n, "evaluations": n,
-                "distinct_nontrivial": len(cases), "accepted": accepts, "concurrent_logins": nburst, "history_steps": nhist, "missing_member_probes": nmiss, "listener_environment_probes": nlisten, "logins_under_upgrade_pressure": nup,
+                "distinct_nontrivial": len(cases), "accepted": accepts, "concurrent_logins": nburst, "history_steps": nhist, "missing_member_probes": nmiss, "probes_after_reloads": nreload, "listener_environment_probes": nlisten, "logins_under_upgrade_pressure": nup,
                 "rule": "every (transport, user-name class, password class) case of Frontends is instantiated with real bytes and submitted to "
                         "the running agent binary (saslauthd socket, HTTP basic-auth, JSON API, LDAP simple bind, CLI); the expected verdict is "
                         "store.Dir.Authenticate on the same directory for the name the module says the transport must use"})
